@@ -1996,7 +1996,7 @@ def evalv(e, env, facts):
         if e[1] == "Not" and v in (0, 1):
             return 1 - v
         return None
-    if k == "call" and re.search(r"(^|::)saturating_sub$", e[1].split("::<")[0]) and len(e[2]) == 2:
+    if k == "call" and re.search(r"(^|::)saturating_sub(::<[^<>]*>)?$", e[1]) and len(e[2]) == 2:
         vs = [evalv(x, env, facts) for x in e[2]]
         if not all(isinstance(x, int) for x in vs) or min(vs) < 0:
             return None         # unsigned operands only (the signed form clamps at the type's minimum)
